@@ -107,15 +107,21 @@ def Pis.restart (_ : Pis) : Pis := {}
 def inputOk (bounds valid : S → Bool) (s : S) : Bool :=
   if bounds s then valid s else false
 
+/-- the `while (addedStartStates_ < getStartStateCount())` loop of `nextStart()`; `fuel` = number of
+start states not yet looked at (structural recursion, so that the model also evaluates in the kernel). -/
+def nextStartAux (bounds valid : S → Bool) (starts : Array S) : Nat → Pis → Option (Nat × S) × Pis
+  | 0, pis => (none, pis)
+  | fuel + 1, pis =>
+    if h : pis.addedStartStates < starts.size then
+      let st := starts[pis.addedStartStates]
+      let pis' := { pis with addedStartStates := pis.addedStartStates + 1 }
+      if inputOk bounds valid st then (some (pis.addedStartStates, st), pis')
+      else nextStartAux bounds valid starts fuel pis'
+    else (none, pis)
+
 /-- `nextStart()`: returns the index handed out (and the state), and the new counters. -/
 def nextStart (bounds valid : S → Bool) (starts : Array S) (pis : Pis) : Option (Nat × S) × Pis :=
-  if h : pis.addedStartStates < starts.size then
-    let st := starts[pis.addedStartStates]
-    let pis' := { pis with addedStartStates := pis.addedStartStates + 1 }
-    if inputOk bounds valid st then (some (pis.addedStartStates, st), pis')
-    else nextStart bounds valid starts pis'
-  else (none, pis)
-termination_by starts.size - pis.addedStartStates
+  nextStartAux bounds valid starts (starts.size - pis.addedStartStates) pis
 
 /-- `while (const State *st = pis_.nextStart()) …`: all states handed out, in order.  `fuel` bounds the
 number of calls; `starts.size + 1` is always enough (`drainStarts_exhausts`). -/
